@@ -88,6 +88,9 @@ func (daYun *DaYun) GetGanZhi() string {
 
 // GetXun 获取所在旬
 func (daYun *DaYun) GetXun() string {
+	if daYun.index < 1 {
+		return ""
+	}
 	return LunarUtil.GetXun(daYun.GetGanZhi())
 }
 
